@@ -70,10 +70,11 @@ def values_for(ty, cls, rng, n):
         return ["%08x-%04x-%04x-%04x-%012x" % (rng.below(2**32), rng.below(2**16), rng.below(2**16), rng.below(2**16), rng.below(2**48))
                 for _ in range(n)]
     if ty == "rid":
-        return {"minimal": ["ri.a.b.c.d"], "emptyinstance": ["ri.service..type.locator"],
-                "dottedlocator": ["ri.my-svc.i-1.some-type.a.b_c-D.9"]}[cls]
+        # every component at its shortest and with every character class of its grammar
+        return {"minimal": ["ri.a.b.c.d", "ri.a..t.c", "ri.a1.0.t-2.L"], "emptyinstance": ["ri.service..type.locator", "ri.s..t.l", "ri.s9-x..t9-y._.-"],
+                "dottedlocator": ["ri.my-svc.i-1.some-type.a.b_c-D.9", "ri.a..t....", "ri.a.b.c.d.E-_.9"]}[cls]
     if ty == "bearertoken":
-        return {"plain": ["abcXYZ019"], "padded": ["dG9rZW4=", "dG9rZQ=="], "symbols": ["a-._~+/b"]}[cls]
+        return {"plain": ["abcXYZ019", "a", "0"], "padded": ["dG9rZW4=", "dG9rZQ==", "a=", "a==========="], "symbols": ["a-._~+/b", "-", "~/+._"]}[cls]
     if ty == "binary":
         if cls == "highbytes":
             return [[251, 239, 190, 255, 254], [255] * 7]
@@ -181,6 +182,10 @@ def run(tier, seed):
             out.violation("C12:%s:panic" % ty, "panic: %s" % obs["panic"][:100], rep)
             continue
         if "skip" in obs:
+            if ty in ("rid", "bearertoken", "safelong", "uuid"):
+                # these values exist only as validated text: refusing a value of the grammar IS the finding (its text cannot parse back)
+                out.violation("C12:%s:%s:unparsable" % (ty, cls), "the value %r is refused: %s" % (v, str(obs["skip"])[:80]), rep)
+                continue
             raise vc.ToolError("plain harness cannot build %s %s: %s" % (ty, v, obs["skip"]))
         if not obs["back"]:
             out.violation("C12:%s:%s:unparsable" % (ty, cls), "printed %r does not parse: %s" % (obs["text"], obs.get("err", "")[:80]), rep)
